@@ -65,16 +65,15 @@ def gen_cases(rng, cfg, n, start_id=0):
 def check_cases(b, cases, stages="as"):
     """Fills c.meta with: model script agreement and oracle verdicts. Returns (disagreements, oracle_failures)."""
     pipeline.run_pipe(b, cases, stages)
-    # model side
-    idx = [i for i, c in enumerate(cases) if c.out.get("AST", ("", ""))[0] == "OK"]
-    answers = pipeline.model_lines(b, ["BASH " + cases[i].out["AST"][1] for i in idx])
-    for i, a in zip(idx, answers):
-        cases[i].meta["model_bash"] = a
+    # model side: the whole model pipeline from the source text (lexer, parser, transpiler, bash emitter)
+    pipeline.model_full(b, cases)
     disagreements, failures = [], []
     runnable = []
     for c in cases:
         ast = c.out.get("AST", ("MISSING", ""))
         impl = c.out.get("BASH", ("MISSING", ""))
+        if c.meta.get("model_ast") != pipeline.impl_ast_canon(c):
+            disagreements.append((c, "AST: " + c.meta.get("model_ast", "MISSING"), "AST: " + pipeline.impl_ast_canon(c)))
         if ast[0] != "OK":
             # a generated (well-typed) program was rejected or crashed the parser
             failures.append((c, "rejected", dict(stage="AST", cls=ast[0], msg=bytes.fromhex(ast[1]).decode("utf-8", "replace") if ast[0] in ("ERR", "PANIC") else "")))
